@@ -57,6 +57,9 @@ def classify_fragment(frag: str) -> str:
     return f'other:{items}'
 
 
+_CONSTS: Dict[str, ast.AST] = {}     # module-level constants of qnmatch (a fragment may be named: `res + _ANY_RUN`)
+
+
 def _appended_constants(stmts: List[ast.stmt], var: str) -> List[str]:
     out = []
     for st in stmts:
@@ -64,6 +67,8 @@ def _appended_constants(stmts: List[ast.stmt], var: str) -> List[str]:
             tgt = st.targets[0] if isinstance(st, ast.Assign) else st.target
             if isinstance(tgt, ast.Name) and tgt.id == var:
                 for c in ast.walk(st.value):
+                    if isinstance(c, ast.Name) and c.id in _CONSTS:
+                        c = _CONSTS[c.id]
                     s = const_str(c)
                     if s is not None and s != '':
                         out.append(s)
@@ -79,6 +84,8 @@ def run(repo: Repo, chk: Check, thorough: bool = False) -> None:
     tr = repo.func('pydoctor.qnmatch.translate')
     # ------------------------------------------------------------------ R13.1
     table: Dict[str, Dict[str, List[str]]] = {}
+    _CONSTS.clear()
+    _CONSTS.update(tr.mod.assigns)
     patp = tr.params()[0].arg
     # the character variable: the local assigned from pat[i]; the result variable: the local that is returned inside the wrapper
     cvars = {t.id for n in tr.walk() if isinstance(n, ast.Assign) and isinstance(n.value, ast.Subscript) and norm(n.value.value) == patp
@@ -256,7 +263,7 @@ def run(repo: Repo, chk: Check, thorough: bool = False) -> None:
     # recognises a rule inside a loop over `options.privacy` - `privacy = priv` or `return priv` - exact when the test is an equality with the qualified
     # name, pattern when it calls qnmatch.  All ordering statements are reachability statements on the CFG of the function that holds the hits.
     pc = repo.func('pydoctor.model.System.privacyClass')
-    from ..util import scope_nodes
+    from ..util import scope_nodes, expanded_text
     rule_funcs = [pc] + [g for g in repo.funcs.values() if g.cls is pc.cls and g is not pc and g.name.startswith('_') and any(call_name(c) == g.name for c in calls_in(pc))]
     resv = {n.value.id for n in pc.walk() if isinstance(n, ast.Return) and isinstance(n.value, ast.Name)}
     resv -= {t.id for n in pc.walk() if isinstance(n, ast.Assign) and 'Cache' in norm(n.value) for t in n.targets if isinstance(t, ast.Name)}
@@ -265,9 +272,9 @@ def run(repo: Repo, chk: Check, thorough: bool = False) -> None:
     for g in rule_funcs:
         gps = {p_.arg for p_ in g.params()}
         fnv_g = {t.id for n in g.walk() if isinstance(n, ast.Assign) and norm(n.value).endswith('.fullName()') for t in n.targets if isinstance(t, ast.Name)}
-        for lp in [n for n in g.walk() if isinstance(n, ast.For) and 'options.privacy' in norm(n.iter)]:
+        for lp in [n for n in g.walk() if isinstance(n, ast.For) and 'options.privacy' in expanded_text(g, n.iter)]:
             # the tests of THIS loop: its body only (an `else:` clause runs after the loop), nested rule loops excluded
-            inner_nodes = {id(y) for st in lp.body for z in ast.walk(st) if isinstance(z, ast.For) and 'options.privacy' in norm(z.iter) for y in ast.walk(z)}
+            inner_nodes = {id(y) for st in lp.body for z in ast.walk(st) if isinstance(z, ast.For) and 'options.privacy' in expanded_text(g, z.iter) for y in ast.walk(z)}
             for i in [x for st in lp.body for x in ast.walk(st) if isinstance(x, ast.If) and id(x) not in inner_nodes]:
                 kind = None
                 if any(isinstance(c, ast.Call) and call_name(c) == 'qnmatch' for c in ast.walk(i.test)):
@@ -337,14 +344,14 @@ def run(repo: Repo, chk: Check, thorough: bool = False) -> None:
                'no pattern hit is reachable once an exact rule has matched' if not reach_from_exact else
                'a pattern rule can override a rule whose pattern equals the qualified name', repo.loc(gp.mod, hp))
     for kind, g, lp, i, h in hits:
-        rev = isinstance(lp.iter, ast.Call) and call_name(lp.iter) == 'reversed'
+        rev = 'reversed(' in expanded_text(g, lp.iter)     # directly or through a named list (`rules = list(reversed(...))`)
         brk = _leaves(g, lp, i)
         ok = (rev and brk) or (not rev and not brk)
         chk.ob('R13.2', f'model.System.privacyClass :: the last given {kind} rule wins', ok,
                'reversed(...) and the loop is left at the first hit (first hit from the end)' if rev and brk else 'forward scan, last hit wins' if ok else
                ('forward scan left at the first hit: the FIRST given rule wins' if brk else 'reversed scan that goes on after a hit: the FIRST given rule wins'),
                repo.loc(g.mod, lp))
-        src = norm(lp.iter)
+        src = expanded_text(g, lp.iter)
         chk.ob('R13.2', f'model.System.privacyClass :: {kind} scan covers all --privacy rules', 'options.privacy' in src and '[' not in src,
                src, repo.loc(g.mod, lp))
     for kind, g, lp, ifn, h in patt:
@@ -363,8 +370,10 @@ def run(repo: Repo, chk: Check, thorough: bool = False) -> None:
                f'`if {norm(skips[0].test)[:70]}: continue` decides from the text of the rule whether it is a pattern: rules whose only wildcard is a `[seq]` set '
                'are never matched', repo.loc(g.mod, skips[0] if skips else lp))
     # default
-    dflt = [n for g in rule_funcs for n in g.walk() if isinstance(n, ast.If) and "startswith('_')" in norm(n.test)]
-    ok = bool(dflt) and "startswith('__')" in norm(dflt[0].test) and "endswith('__')" in norm(dflt[0].test) and 'not' in norm(dflt[0].test) and \
+    dflt_ = [(n, expanded_text(g, n.test)) for g in rule_funcs for n in g.walk() if isinstance(n, ast.If) and "startswith('_')" in expanded_text(g, n.test)]
+    dflt = [n for n, _ in dflt_]
+    dtxt = dflt_[0][1] if dflt_ else ''
+    ok = bool(dflt) and "startswith('__')" in dtxt and "endswith('__')" in dtxt and 'not' in norm(dflt[0].test) and \
         any('PRIVATE' in norm(s) for s in dflt[0].body)
     init = [a for a in assigns if 'PUBLIC' in norm(a.value)] + [r for g in rule_funcs for r in g.walk() if isinstance(r, (ast.Return, ast.Assign)) and r.value is not None and 'PUBLIC' in norm(r.value)]
     chk.ob('R13.2', 'model.System.privacyClass :: default privacy from the name', ok and bool(init),
